@@ -86,6 +86,11 @@ class TemporalSystem:
             yield ("duration", v)
         for b in (False, True):
             yield ("inclusive", b)
+        if st.init:
+            # re-alignment leaves the logical history alone; a negative index is legal and is stored as given
+            yield ("align", -1)
+            if size_formula(st.dt, st.dur, st.inc) >= 2:  # the documented index range is [-N, N)
+                yield ("align", 1)
 
     def queries(self, st):
         return ()
@@ -94,6 +99,19 @@ class TemporalSystem:
         bad = []
         rt = st.rt
         name = op[0]
+        if name == "align":
+            try:
+                rt.align(op[1])
+            except Exception as ex:
+                if not check:
+                    raise
+                return [(f"exception:align:{type(ex).__name__}", f"align({op[1]}) raised {ex!r}", None, repr(ex))]
+            if check:
+                N = size_formula(st.dt, st.dur, st.inc)
+                got = [rt.read(k).reshape(-1).tolist() for k in range(1, N + 1)]
+                if got != st.hist:
+                    bad.append(("history:align", f"after {op} reads newest-first {got}, model {st.hist}", st.hist, got))
+            return bad
         Nold = size_formula(st.dt, st.dur, st.inc)
         raised = None
         if name == "push":
@@ -163,7 +181,7 @@ class TemporalSystem:
             return (st.dt, st.dur, st.inc, "uninit")
         flat = [tuple(r) for r in st.hist]
         ranks = {v: i for i, v in enumerate(sorted(set(flat)))}
-        return (st.dt, st.dur, st.inc, st.rt.pointer % st.rt.recordsz, tuple(ranks[v] for v in flat))
+        return (st.dt, st.dur, st.inc, st.rt.pointer % st.rt.recordsz, st.rt.pointer < 0, tuple(ranks[v] for v in flat))
 
 
 def temporal_shard(storage, shape, dt0, dur0, inc0, dts, durs, depth):
@@ -239,6 +257,16 @@ class ConstraintSystem:
             ShapedTensor.create(st.mod, "x", None, strict=self.strict)
             st.t = st.mod.x
             st.ref = None
+        elif self.kind in ("record-uninitbuf", "record-uninitparam", "record-empty0"):
+            # a record whose storage is not initialised yet (lazy kinds): bookkeeping only, nothing may raise for that reason
+            val = {"record-uninitbuf": nn.UninitializedBuffer(), "record-uninitparam": nn.UninitializedParameter(requires_grad=False),
+                   "record-empty0": torch.empty(0)}[self.kind]
+            RecordTensor.create(st.mod, "x", 1.0, 2.0, val, strict=self.strict)
+            st.t = st.mod.x
+            st.ref = None
+            # twin with plain ``None`` storage: every lazy kind must accept / refuse exactly what it does
+            RecordTensor.create(st.mod, "twin", 1.0, 2.0, None, strict=self.strict)
+            st.twin = st.mod.twin
         else:  # record: 2 slots, observation = base; fill both slots with distinct data
             RecordTensor.create(st.mod, "x", 1.0, 2.0, base.clone(), strict=self.strict)
             st.t = st.mod.x
@@ -273,7 +301,7 @@ class ConstraintSystem:
     def step(self, st, op, check=True):
         _, dim, size = op
         t = st.t
-        rec = self.kind == "record"
+        rec = self.kind.startswith("record")
         before_c = self.user_constraints(st)
         before_d = self.obs_data(st)
         raised = None
@@ -281,9 +309,26 @@ class ConstraintSystem:
             t.reconstrain(dim, size)
         except Exception as ex:
             raised = ex
+        twin = getattr(st, "twin", None)
+        twin_bad = None
+        if twin is not None:
+            traised = None
+            try:
+                twin.reconstrain(dim, size)
+            except Exception as ex:
+                traised = ex
+            if (raised is None) != (traised is None):
+                twin_bad = (f"uninitialised-storage-kind-differs:{self.kind}", f"{op}: with {self.kind.split('-')[1]} storage reconstrain "
+                            f"{'raised ' + repr(raised) if raised is not None else 'was accepted'}, with None storage it "
+                            f"{'raised ' + repr(traised) if traised is not None else 'was accepted'}", None, repr(raised))
+            elif dict(twin.constraints) != dict(t.constraints):
+                twin_bad = (f"uninitialised-storage-kind-differs:{self.kind}:constraints", f"{op}: constraints {dict(t.constraints)} vs {dict(twin.constraints)} "
+                            "with None storage", dict(twin.constraints), dict(t.constraints))
         after_c = self.user_constraints(st)
         after_d = self.obs_data(st)
         bad = []
+        if check and twin_bad is not None:
+            bad.append(twin_bad)
         tag = f"{self.kind}:{'strict' if self.strict else 'loose'}"
 
         def same(a, b):
@@ -455,6 +500,9 @@ def run(rep):
         for strict in (True, False):
             for shape in ((2, 3), (3, 2, 2)) if kind != "shaped-none" else ((2, 3),):
                 jobs.append((constraint_shard, (kind, strict, shape, (0, 1, -1, -2), (None, 1, 2, 3), cdepth)))
+    for kind in ("record-uninitbuf", "record-uninitparam", "record-empty0"):
+        for strict in (True, False):
+            jobs.append((constraint_shard, (kind, strict, (2, 3), (0, 1, -1, -2), (None, 1, 2, 3), cdepth - 1)))
     for kind in ("shaped", "record"):
         jobs.append((caller_dict_shard, (kind,)))
     tally = run_shards(jobs, seed=rep.seed)
